@@ -12,6 +12,7 @@ import (
 	"sort"
 	"strconv"
 	"sync"
+	"syscall"
 	"time"
 )
 
@@ -295,6 +296,12 @@ func (r *Run) Inconclusive(why string) {
 // Violation reports a refuting observation. key identifies the failing input / call site for the
 // known-findings file; caseData must be enough for -replay to re-execute the case.
 func (r *Run) Violation(key, what string, caseData any) {
+	if free, ok := freeScratchMB(); ok && free < 256 {
+		// a full disk makes the node lose files it believes it wrote (the oracle file cache ignores write
+		// errors): whatever is observed in that state says nothing about the property
+		r.Inconclusive(fmt.Sprintf("scratch disk full (%d MB free) while observing %q", free, key))
+		return
+	}
 	r.mu.Lock()
 	defer r.mu.Unlock()
 	for _, f := range r.known {
@@ -447,4 +454,13 @@ func Parallel(n, workers int, fn func(i int)) {
 	}
 	close(ch)
 	wg.Wait()
+}
+
+// freeScratchMB returns the free space of the scratch directory's file system.
+func freeScratchMB() (int64, bool) {
+	var st syscall.Statfs_t
+	if err := syscall.Statfs(os.TempDir(), &st); err != nil {
+		return 0, false
+	}
+	return int64(st.Bavail) * int64(st.Bsize) / (1 << 20), true
 }
